@@ -494,6 +494,24 @@ fn wz(pr: &Prob, w: &[f64]) -> Vec<f64> {
 }
 
 /// near-optimality, intercept mapping, predict — everything the statement says about one fit
+/// Signature refinement for a violated objective oracle: when the same fit with the iteration cap lifted
+/// (max_iter = 200000 instead of the library default 1000) meets the threshold, the cause is the exhausted
+/// iteration cap and the violation is filed under "<sig>/iteration-cap(max_iter=1000)". Chooses the signature
+/// only, never the verdict.
+fn cap_sig(c: &mut Case, model: Model, d: &Data, pr: &Prob, rf: &Reference, cfg: &Cfg, sg: &str, excess: f64, thr: f64) -> String {
+    if !(excess > thr) {
+        return sg.to_string();
+    }
+    if let Some(Ok(f2)) = run_fit(c, model, &d.x, &d.xp, &d.y, cfg, 200_000, sg) {
+        let w2 = wz(pr, &f2.w);
+        if w2.iter().all(|v| v.is_finite()) && pr.primal(&w2) - rf.pval <= thr {
+            c.bucket("diagnosis:iteration-cap-exhausted");
+            return format!("{}/iteration-cap(max_iter=1000)", sg);
+        }
+    }
+    sg.to_string()
+}
+
 fn check_fit(c: &mut Case, model: Model, d: &Data, pr: &Prob, rf: &Reference, cfg: &Cfg, f: &Fit, sg: &str) {
     let m = model.name();
     let w_z = wz(pr, &f.w);
@@ -502,7 +520,9 @@ fn check_fit(c: &mut Case, model: Model, d: &Data, pr: &Prob, rf: &Reference, cf
         c.inconclusive("implementation objective below the certified lower bound: reference inconsistent");
         return;
     }
-    c.ratio(&format!("{}.objective", m), fval - rf.pval, excess_threshold(pr, rf, &d.y, cfg.tol), sg, || {
+    let thr_obj = excess_threshold(pr, rf, &d.y, cfg.tol);
+    let sg_obj = cap_sig(c, model, d, pr, rf, cfg, sg, fval - rf.pval, thr_obj);
+    c.ratio(&format!("{}.objective", m), fval - rf.pval, thr_obj, &sg_obj, || {
         format!("F(w_impl) = {:e}, certified F* in [{:e}, {:e}] ({}), tol = {:e}, relative excess {:e}; w_impl(z-units) = {:?}, w_ref = {:?}",
             fval, rf.gval, rf.pval, rf.method, cfg.tol, (fval - rf.pval) / rf.pval, w_z, rf.w)
     });
@@ -626,10 +646,17 @@ fn enet_rho1(c: &mut Case) {
         // the Lasso objective of the elastic-net fit is within the Lasso tolerance of the Lasso optimum
         let w_z = wz(&pr, &fe.w);
         let fval = pr.primal(&w_z);
-        c.ratio("enet.rho1.lasso-objective", fval - rf.pval, excess_threshold(&pr, &rf, &d.y, cfg.tol), &sg, || {
+        let thr_obj = excess_threshold(&pr, &rf, &d.y, cfg.tol);
+        let sg_obj = cap_sig(c, Model::Enet, &d, &pr, &rf, &cfg, &sg, fval - rf.pval, thr_obj);
+        c.ratio("enet.rho1.lasso-objective", fval - rf.pval, thr_obj, &sg_obj, || {
             format!("Lasso objective of ElasticNet(l1_ratio=1) = {:e}, certified Lasso optimum in [{:e}, {:e}], tol {:e}; w_enet(z-units) = {:?}, w_ref = {:?}", fval, rf.gval, rf.pval, cfg.tol, w_z, rf.w)
         });
         check_fit(c, Model::Enet, &d, &pr, &rf, &cfg, fe, &sg);
+        if sg_obj != sg {
+            // the elastic-net fit ran into the iteration cap: the comparisons with the Lasso fit below
+            // would only repeat that finding
+            return;
+        }
     }
     if let (Some(fe), Some(fl)) = (&fe, &fl) {
         let (we, wl) = (wz(&pr, &fe.w), wz(&pr, &fl.w));
